@@ -1,9 +1,146 @@
 (* C13 — WKT round-trips; malformed or wrongly-typed text is rejected.
-   This file holds only statements closed by [exact] and their Print Assumptions. *)
+   This file holds only statements closed by [exact] and their Print Assumptions.
+   Token level (Model/WktM.v, first half): a text is its keyword, Z/M marker and nested lists of
+   coordinate tuples; numbers are opaque values ASSUMED to print in the class the grammar
+   lexes as one number and float() reads back exactly (plain decimals with at most three
+   integer digits, or exponent form) — see C13_z_four_digits_refuted for what happens outside.
+   Character level (second half of WktM.v): executable, tied to /repo by the correspondence
+   (every single-character corruption of valid texts) and by the translator (the regexes). *)
+From Coq Require Import String Ascii.
 From GV Require Import Prelude RingM RingP WktM WktP.
 Open Scope Z_scope.
+
+(* write then read with the type's own reader gives the very same shape, for every point,
+   linestring, polygon with holes and the three multi forms (any number of parts, holes, vertices) *)
+Theorem C13_wkt_roundtrip : forall half orc k g t,
+  kind_tag g = Some t -> wkt_wf half g -> read half t (write orc k g) = Ok g.
+Proof. exact wkt_roundtrip. Qed.
+Print Assumptions C13_wkt_roundtrip.
+
+(* the hypothesis is met by every GeoPolygon built from vertex lists (RingP) *)
+Theorem C13_constructed_polygon_wf : forall half o hs,
+  span_ok half o -> (2 <= length o)%nat -> ring_zok o ->
+  Forall (fun h => span_ok half h /\ (2 <= length h)%nat /\ ring_zok h /\ area2 (close_ring h) <> 0) hs ->
+  wkt_wf half (GPoly (mk_polygon half o (map (mk_hole half) hs))).
+Proof. exact constructed_polygon_wf. Qed.
+Print Assumptions C13_constructed_polygon_wf.
+
+(* the type-dispatching parser reaches the same reader *)
+Theorem C13_parse_wkt_dispatch : forall half orc k g t,
+  kind_tag g = Some t -> parse_wkt half (write orc k g) = read half t (write orc k g).
+Proof. exact parse_wkt_dispatch. Qed.
+Print Assumptions C13_parse_wkt_dispatch.
+
+(* box, circle, ellipse, ring, wedge are written and dispatched as POLYGON *)
+Theorem C13_shapeless_dispatch : forall half orc k g,
+  kind_tag g = None -> w_tag (write orc k g) = Some TPoly /\
+  parse_wkt half (write orc k g) = read half TPoly (write orc k g).
+Proof. exact shapeless_dispatch. Qed.
+Print Assumptions C13_shapeless_dispatch.
+
+(* GeoBox writes exactly the WKT of its polygon form *)
+Theorem C13_shapeless_write_box : forall half orc k nw se hs,
+  lon nw <= lon se -> lat se <= lat nw -> lon se - lon nw <= half ->
+  write orc k (GBox nw se hs) = write orc k (GPoly (mk_polygon half (box_ring nw se) hs)).
+Proof. exact shapeless_write_box. Qed.
+Print Assumptions C13_shapeless_write_box.
+
+(* circle / ellipse: CONDITIONAL on the sampled boundary (oracle) being closed and counter-clockwise *)
+Theorem C13_shapeless_write_round_conditional : forall half orc k id hs,
+  closedb (o_outer orc id k) = true -> is_ccw half (o_outer orc id k) = true ->
+  write orc k (GRound id hs) = write orc k (GPoly (mk_polygon half (o_outer orc id k) hs)).
+Proof. exact shapeless_write_round. Qed.
+Print Assumptions C13_shapeless_write_round_conditional.
+
+Theorem C13_shapeless_write_wedge_conditional : forall half orc k id hs,
+  let r := (o_outer orc id k ++ rev (o_inner orc id k) ++ firstn 1 (o_outer orc id k))%list in
+  is_ccw half r = true -> o_outer orc id k <> [] ->
+  write orc k (GWedge id hs) = write orc k (GPoly (mk_polygon half r hs)).
+Proof. exact shapeless_write_wedge. Qed.
+Print Assumptions C13_shapeless_write_wedge_conditional.
+
+(* --- rejection --- *)
 
 Theorem C13_wrong_tag_rejected : forall half t w,
   w_tag w <> Some t -> read half t w = Err ValueError.
 Proof. exact wrong_tag_rejected. Qed.
 Print Assumptions C13_wrong_tag_rejected.
+
+Theorem C13_unknown_keyword_rejected : forall half w, w_tag w = None ->
+  parse_wkt half w = Err ValueError /\ forall t, read half t w = Err ValueError.
+Proof. exact unknown_keyword_rejected. Qed.
+Print Assumptions C13_unknown_keyword_rejected.
+
+Theorem C13_lowercase_not_dispatched : forall half w, w_upper w = false -> parse_wkt half w = Err ValueError.
+Proof. exact lowercase_not_dispatched. Qed.
+Print Assumptions C13_lowercase_not_dispatched.
+
+Theorem C13_bad_arity_rejected : forall half t w c,
+  In c (all_tuples (w_body w)) -> ~ (2 <= length c <= 4)%nat -> read half t w = Err ValueError.
+Proof. exact bad_arity_rejected. Qed.
+Print Assumptions C13_bad_arity_rejected.
+
+Theorem C13_wrong_depth_rejected : forall half t w,
+  body_depth (w_body w) <> depth_of t -> read half t w = Err ValueError.
+Proof. exact wrong_depth_rejected. Qed.
+Print Assumptions C13_wrong_depth_rejected.
+
+(* everything that passes the gate has the keyword, depth and arities of its type *)
+Theorem C13_gate_sound : forall t w, gate t w = true ->
+  w_tag w = Some t /\ body_depth (w_body w) = depth_of t /\
+  Forall (fun c => (2 <= length c <= 4)%nat) (all_tuples (w_body w)).
+Proof. exact gate_inv. Qed.
+Print Assumptions C13_gate_sound.
+
+(* --- known findings, as refutations of the unrestricted clauses --- *)
+
+(* D14: z = 0 is dropped by the writer *)
+Theorem C13_z_zero_roundtrip_refuted :
+  exists g g', kind_tag g = Some TPoint /\ read 720 TPoint (write noorc None g) = Ok g' /\ g' <> g.
+Proof. exact z_zero_wkt_refuted. Qed.
+Print Assumptions C13_z_zero_roundtrip_refuted.
+
+(* D26: "malformed text is rejected with ValueError" fails for a digit run the gate splits *)
+Theorem C13_malformed_ValueError_refuted :
+  from_wkt_chars TPoint (chars "POINT(1234)") = inr (Err TypeError) /\
+  parse_wkt_chars (chars "POINT(1234)") = inr (Err TypeError).
+Proof. exact digit_run_split_refuted. Qed.
+Print Assumptions C13_malformed_ValueError_refuted.
+
+(* a Z of 1500.5 written by the library is read back as 1500.0 (character level, units of 0.1) *)
+Theorem C13_z_four_digits_refuted :
+  from_wkt_chars TPoint (chars "POINT(1.0 2.0 1500.5)") =
+  inr (Ok (GPoint (mkc 10 20 (Some 15000)), -1)).
+Proof. exact z_four_digits_refuted. Qed.
+Print Assumptions C13_z_four_digits_refuted.
+
+Theorem C13_char_level_examples :
+  from_wkt_chars TPoint (chars "POINT(1.0 2.0 150.5)") = inr (Ok (GPoint (mkc 10 20 (Some 1505)), -1)) /\
+  from_wkt_chars TPoint (chars "POINT(1e-05 5.0)") = inr (Ok (GPoint (mkc 1 500000 None), -5)) /\
+  from_wkt_chars TLine (chars "POINT(1.0 2.0)") = inr (Err ValueError) /\
+  parse_wkt_chars (chars "point(1.0 2.0)") = inr (Err ValueError) /\
+  from_wkt_chars TPoint (chars "POINT(1.0 2.0") = inr (Err ValueError).
+Proof. exact char_level_examples. Qed.
+Print Assumptions C13_char_level_examples.
+
+(* non-vacuity: a multipolygon whose first part has a hole meets wkt_wf, and the round trip computes *)
+Definition ex_sq : ring := [mkc 0 0 None; mkc 0 40 None; mkc 40 40 None; mkc 40 0 None].
+Definition ex_hole : ring := [mkc 8 8 (Some 3); mkc 12 8 (Some 3); mkc 12 12 (Some 3); mkc 8 8 (Some 3)].
+Definition ex_tri : ring := [mkc 80 80 None; mkc 84 80 None; mkc 84 84 None].
+Definition ex_mp : geom :=
+  GMPoly [mk_polygon 720 ex_sq (map (mk_hole 720) [ex_hole]); mk_polygon 720 ex_tri []].
+
+Example C13_nonvacuous :
+  is_ccw 720 ex_sq = false /\ closedb ex_tri = false /\
+  kind_tag ex_mp = Some TMPoly /\
+  read 720 TMPoly (write noorc None ex_mp) = Ok ex_mp /\
+  parse_wkt 720 (write noorc None ex_mp) = Ok ex_mp /\
+  read 720 TPoly (write noorc None ex_mp) = Err ValueError /\
+  length (all_tuples (w_body (write noorc None ex_mp))) = 13%nat.
+Proof. vm_compute. repeat split; reflexivity. Qed.
+
+Example C13_nonvacuous_wf : wkt_wf 720 ex_mp.
+Proof.
+  unfold wkt_wf, ex_mp. split; [discriminate|].
+  repeat constructor; vm_compute; try discriminate; try reflexivity; try (intros H; discriminate H); try lia.
+Qed.
